@@ -470,7 +470,36 @@ def hash_pred(c):
     return {"nontrivial": multi > 0, "labels": ["seeds=%d" % len(outs)], "evals": len(outs) * len(base)}
 
 
+# ----------------------------------------------------------------------------------------------
+# (qnwalk) the driver's layout walk of rho / phi, incl. grids with more ranks along r than theta modes
+# ----------------------------------------------------------------------------------------------
+@st.composite
+def qn_cases(draw, tier):
+    from . import c15
+    nq = draw(st.sampled_from([4, 4, 5, 6]))
+    cfg = sim.base_cfg([draw(st.integers(5, 7)), nq, 7, draw(st.integers(5, 7))], draw(st.sampled_from([0.0, 0.8])), 2.0)
+    maxP = 6 if tier == "quick" else 12
+    grids = sim.admissible_grids(cfg["npts"], maxP)
+    big = [g for g in grids if g[0] > nq]
+    g = draw(st.sampled_from(big if big and draw(st.booleans()) else [x for x in grids if x[0] * x[1] >= 2]))
+    return {"cfg": cfg, "nprocs": g, "seed": draw(st.integers(0, 2 ** 16)), "chi": 0, "adiabatic": True,
+            "modes": [[1, 0, 1.0, 0.3], [-2, 1, 0.5, 1.0]], "noise": 0.3, "schedule": draw(gen.schedules(24)),
+            "eager": draw(st.booleans())}
+
+
+def qn_pred(c):
+    from . import c15
+    P = c["nprocs"][0] * c["nprocs"][1]
+    res, w = run_world(P, c15._rank, (c,), schedule=c["schedule"], eager=c["eager"], key="C06:qnwalk")
+    ncoll = max(len(t) for t in w.traces())
+    empty = c["nprocs"][0] > c["cfg"]["npts"][1]
+    return {"nontrivial": P >= 2 and ncoll >= 3, "labels": ["P=%d" % P, "eager" if c["eager"] else "strict",
+                                                            "ranks-without-theta-modes" if empty else "all-ranks-own-modes"],
+            "evals": 1}
+
+
 SUBS = {"layouts": Sub(layout_pred, strategy=layout_cases), "plotrank": Sub(plot_pred, strategy=plot_cases),
+        "qnwalk": Sub(qn_pred, strategy=qn_cases),
         "saving": Sub(save_pred, strategy=save_cases), "driver": Sub(driver_pred, strategy=driver_cases),
         "hashseed": Sub(hash_pred, strategy=hash_cases)}
 
@@ -487,6 +516,7 @@ def jobs(tier):
             [{"sub": "plotrank", "n": n2, "shard": i} for i in range(k2)] +
             [{"sub": "saving", "n": n3, "shard": i} for i in range(k3)] +
             [{"sub": "driver", "n": n4, "shard": i} for i in range(k4)] +
+            [{"sub": "qnwalk", "n": 4 if tier == "quick" else 60, "shard": i} for i in range(4)] +
             [{"sub": "hashseed", "n": n5, "shard": i} for i in range(1)])
 
 
